@@ -12,7 +12,7 @@ QUICK_CASES = 1200  # generator items in the quick tier (fixed amount of work; B
 FLOOR = {"quick": 400, "thorough": 400}  # conclusive cases below which a run is inconclusive (the thorough tier is time-budgeted: same floor)
 TIMEOUT = 120
 HASHSEEDS = {"quick": [0, 1, 2, 3], "thorough": list(range(16))}
-REQUIRED_OBS = ["histories", "reloads", "load_records_checked", "contexts_compared", "untouched_contexts_verified", "reexecuted_contexts", "import_edges", "named_or_star_reloads", "app_config_changes", "counter_values_checked", "module_form_swaps", "option_flips"]
+REQUIRED_OBS = ["histories", "reloads", "load_records_checked", "contexts_compared", "untouched_contexts_verified", "reexecuted_contexts", "import_edges", "named_or_star_reloads", "app_config_changes", "counter_values_checked", "module_form_swaps", "option_flips", "failed_imports_modelled"]
 RULE = (
     "real temp trees over pyscript/*.py, scripts/**, apps/<app>.py, apps/<app>/__init__.py + sibling, modules/<m>.py, modules/<pkg>/"
     "__init__.py + sibling with generated import edges (import m, from m import X, import pkg, relative imports inside packages, an app "
@@ -25,7 +25,7 @@ RULE = (
     "PYTHONHASHSEED swept over the workers. Non-trivial: >= 1 import edge and >= 2 reloads with different changed sets."
 )
 ASSUMPTIONS = [
-    "a module file is never deleted / commented while a remaining file still imports it (that is an import error, C18's subject)",
+    "a module file may be deleted while files still import it: those files are re-executed, fail at the import and stay unloaded until the module is back (the error reports themselves are C18's subject)",
     "an app never imports a different app as a module; mtimes set by the harness increase strictly",
     "a module that stays loaded after its last importer stopped importing it is left loaded (the code never unloads unchanged modules); the model does the same and this is reported in evidence as orphan_module_contexts",
 ]
@@ -179,6 +179,7 @@ class Model:
     def __init__(self, tree):
         self.tree = tree
         self.loaded = {}  # ctx -> {"gen", "mtime", "cfg", "imports": set}
+        self.failures = 0
 
     def app_cfg(self, rel):
         parts = rel.split("/")
@@ -196,13 +197,15 @@ class Model:
         entry = {"gen": f["gen"], "mtime": f["mtime"], "cfg": self.app_cfg(rel), "imports": set(), "count": 0}
         self.loaded.pop(ctx, None)
         for ictx in direct_imports(t, rel, None):
-            entry["imports"].add(ictx)
             if ictx not in self.loaded:
                 irel = rel_of_ctx(t, ictx)
-                if irel is None:
-                    continue
-                self.execute(irel, executed)
+                if irel is None or not self.execute(irel, executed):
+                    # the import fails (module file gone): this file is not loaded, what it imported before stays
+                    self.failures += 1
+                    return False
+            entry["imports"].add(ictx)
         self.loaded[ctx] = entry
+        return True
 
     def initial_load(self):
         executed = []
@@ -248,6 +251,10 @@ class Model:
         will = set()
         for c in files:
             if c.startswith("modules.") and (c in delete or force[c]):
+                will.add(".".join(c.split(".")[:2]))
+        for c in delete:
+            # a deleted module file is a changed module too: what imports it is reloaded (and then fails to load)
+            if c.startswith("modules.") and c not in files:
                 will.add(".".join(c.split(".")[:2]))
 
         def closure(c, seen):
@@ -423,6 +430,7 @@ def run_case(case):
                 op = f"touch {rel}"
             elif k < 0.50:
                 cand = [r for r in ["x.py", "y.py", "z.py", "scripts/s1.py", "scripts/sub/s2.py", "scripts/s3.py", "apps/a1.py"] if r not in tree.files]
+                cand += [f"modules/{m}.py" for m in ("m1", "m2") if f"modules/{m}.py" not in tree.files and f"modules/{m}/__init__.py" not in tree.files]
                 if not cand:
                     continue
                 rel = rng.choice(cand)
@@ -434,7 +442,7 @@ def run_case(case):
                 # a module may go only if nothing present imports it
                 for m in ("m1", "m2"):
                     for r_ in (f"modules/{m}.py", f"modules/{m}/__init__.py"):
-                        if r_ in tree.files and not importers_of(tree, m):
+                        if r_ in tree.files and (not importers_of(tree, m) or rng.random() < 0.5):
                             cand.append(r_)
                 if not cand:
                     continue
@@ -546,7 +554,7 @@ def run_case(case):
             os.utime(os.path.join(w.pydir, rel), (tree.files[rel]["mtime"], tree.files[rel]["mtime"]))
 
     w, _ = run_world(main, files=files, config=config, legacy=case["legacy"], pre_setup=pre, keep=True)
-    errs = [r for r in w.logs(level="ERROR") if "no global context" not in r["msg"]]
+    errs = [r for r in w.logs(level="ERROR") if "no global context" not in r["msg"] and not (model.failures and any(x in r["msg"] for x in ("Failed to load", "module_import: failed", "not allowed", "ModuleNotFoundError", "cannot import name")))]
     if errs and not viol:
         viol.append({"mech": "unexpected_error_log", "msg": str(errs[:2])[:1000]})
     if w.escapes and not viol:
@@ -555,7 +563,7 @@ def run_case(case):
         "verdict": "violated" if viol else "held",
         "violations": viol[:2],
         "nontrivial": obs["import_edges"] > 0 and len(changed_sets) >= 2,
-        "obs": dict(obs, orphan_module_contexts=orphan, legacy_cases=int(case["legacy"]), default_cases=int(not case["legacy"])),
+        "obs": dict(obs, orphan_module_contexts=orphan, failed_imports_modelled=model.failures, legacy_cases=int(case["legacy"]), default_cases=int(not case["legacy"])),
         "cover": cover,
         "sig": "|".join(cover["steps"]) + f"|{case['legacy']}",
     }
